@@ -1,7 +1,7 @@
 (* C08 — every Merkle proof served verifies against the root it was asked for. Generic in the hash. *)
 From Coq Require Import Arith NArith List Bool.
 From Verif Require Import Model.Merkle Model.MerkleSpec Model.TreeStore Proofs.Frontier Proofs.Rht Proofs.Sparse
-  Proofs.TreeStoreProofs Proofs.TreeStoreCorollaries.
+  Proofs.TreeStoreProofs Proofs.TreeStoreCorollaries Model.Contracts Proofs.ContractProofs Proofs.ContractVerify.
 Import ListNotations.
 Local Close Scope N_scope.
 
@@ -70,10 +70,30 @@ Theorem C08_store_proof_verifies : forall db mem L k j, Reach HT node zhf db mem
   Gen.get_leaf HT db (N.of_nat j) root = Some (lf L j) /\
   Gen.get_proof_used_zero HT db (N.of_nat j) root = false.
 Proof. exact (store_proof_verifies HT node node_inj zhf Hzh). Qed.
+
+(* ... and it verifies WHERE IT IS USED: a deposit contract (Solidity transcription, Model/Contracts.v, compared with the deployed
+   bytecode on every run) that received the same first k leaves reports the root of version k, and its calculateRoot over the
+   served proof of any j < k returns that root, i.e. verifyMerkleProof(leaf_j, proof, j, getRoot()) = true — in every reachable
+   state of the store, whatever reorgs, restarts and aborted appends it went through *)
+Theorem C08_contract_accepts_served_proof : forall db mem L k j branch0,
+  Reach HT node zhf db mem L -> j < k -> k <= length L -> k < 2 ^ HT ->
+  let store_root := mroot node 0%N (lf L) HT k in
+  let proof := Gen.get_proof HT zhf db (N.of_nat j) store_root in
+  let contract_root := dc_root node 0%N HT (Nat.testbit k) (dc_after node (lf L) HT k branch0) in
+  contract_root = store_root /\
+  dc_calculate_root node HT (Nat.testbit j) (lf L j) (cache_of_list 0%N proof) = contract_root.
+Proof. exact (contract_accepts_served_proof HT node node_inj zhf Hzh). Qed.
 End Store.
+
+(* the contract's calculateRoot over exactly H siblings is the node's own CalculateRoot (tree.calculateRoot) *)
+Theorem C08_contract_calculate_root_is_calc : forall {hash : Type} (node : hash -> hash -> hash) (z0 : hash) (s : list hash) bit leaf,
+  dc_calculate_root node (length s) bit leaf (cache_of_list z0 s) = calc node 0 s leaf bit.
+Proof. intros hash node z0. exact (dc_calculate_root_is_calc node z0). Qed.
 
 Print Assumptions C08_wf_preserved_by_insert.
 Print Assumptions C08_store_proof_verifies.
+Print Assumptions C08_contract_accepts_served_proof.
+Print Assumptions C08_contract_calculate_root_is_calc.
 Print Assumptions C08_proof_verifies_wf.
 Print Assumptions C08_getproof_is_walk.
 Print Assumptions C08_append_proof_verifies.
